@@ -130,7 +130,7 @@ def run(ctx):
         mm["key"] = "FileStream:unexplained:asbuilt:%s:%s" % (F.compact(mm.get("a", {})), mm["cfg"].get("kind"))
         mm["what"] = "real responder departs from FileStream.tla with Dev = AS_BUILT: %s" % F.describe(mm)
         unexplained.append(mm)
-    for mm in F.confirm(ctx, binpath, unexplained, [("ideal", p_ideal), ("asbuilt", p_built)]):
+    for mm in F.confirm(ctx, binpath, unexplained, [("ideal", p_ideal), ("asbuilt", p_built)], os.environ.get("VERIF_CORRUPT_FS", "")):
         ctx.finding(mm["key"], mm["what"], slim(mm))
     for d, what in sorted(seen.items()):
         if d in F.SITE:
@@ -143,6 +143,20 @@ def run(ctx):
     v_built, v_ideal = byname["asbuilt"], byname["ideal"]
     shown = {}
     if not v_built["accepted"] and not v_ideal["accepted"]:
+        # a rejected run is recorded and validated once more before it becomes a verdict (the scenarios run in real time on
+        # a shared machine); it is reported when the same scenario is rejected again
+        first = v_built["scenario"]
+        recs2 = F.run_honest(ctx, binpath, scens)
+        traces2 = [F.trace_of(r) for r in recs2]
+        vjobs2, evs2 = F.validate_jobs(ctx, traces2, dict(cs, MaxRecv=8), [("asbuilt2", F.AS_BUILT), ("ideal2", [])])
+        v2 = [F.trace_result(r, evs2) for r in F.tlc_many(ctx, vjobs2, 2)]
+        ctx.log("recorded scenarios: %s rejected; second recording: %s" % (first, "accepted" if (v2[0]["accepted"] or v2[1]["accepted"])
+                                                                           else "rejected at " + str(v2[0]["scenario"])))
+        if v2[0]["accepted"] or v2[1]["accepted"] or v2[0]["scenario"] != first:
+            v_built = dict(v_built, accepted=True, unconfirmed=first)
+        else:
+            recs, v_built = recs2, v2[0]
+    if not v_built["accepted"] and not v_ideal["accepted"]:
         ev = v_built["event"] or {}
         what = ("a recorded run of the real initiator (scenario %s) is not a behaviour of FileStream.tla with Dev = AS_BUILT: "
                 "event #%s %s cannot be matched" % (v_built["scenario"], v_built["hw"], vf.canon(ev))) if not v_built["violated"] or \
@@ -150,7 +164,7 @@ def run(ctx):
             "a recorded run of the real initiator violates %s" % v_built["violated"]
         ctx.finding("FileStream:unexplained:trace:%s:%s" % (v_built["scenario"], ev.get("ev")), what,
                     {"event": ev, "scenario": v_built["scenario"], "records": [r for r in recs if r["sc"]["name"] == v_built["scenario"]]})
-    elif v_built["accepted"]:
+    elif v_built["accepted"] and not v_built.get("unconfirmed"):
         for d in shown_devs:
             w = byname["without-" + d]
             shown[d] = not w["accepted"]
@@ -188,6 +202,7 @@ def run(ctx):
                                                        for d in F.AS_BUILT_R},
                  asbuilt_replay_mismatches=len(rep["asbuilt"]["mismatches"]), repaired_deviations_observed=fixed_seen,
                  honest_scenarios=len(recs), honest_events=len(evs), trace_accepted_asbuilt=v_built["accepted"],
+                 trace_unconfirmed_rejection=v_built.get("unconfirmed"),
                  trace_accepted_ideal=v_ideal["accepted"], trace_deviations_shown=shown,
                  deviations_caught=caught, as_built=F.AS_BUILT,
                  samples=[{"replayed_path": [F.compact(s["a"]) for s in p["steps"]], "cfg": p["cfg"]} for p in p_ideal[:2]] +
